@@ -6,7 +6,9 @@
    atomic step here (the window between digestToPath.Store and exists := true is not
    modelled); an unnamed Push commits with the fallback's LoadOrStore; afterwards, outside
    any lock, restoreDuplicates / graph.Index read the content back and index it: a second
-   step.  Tag = Exists (reads of monotone state) ; resolver.Tag under the resolver lock.
+   step (for content without titled successors it touches the graph only; with titled
+   successors the restore falls behind the store and concurrent histories are not
+   serialisable in general -- the theorem is about untitled content).  Tag = Exists (reads of monotone state) ; resolver.Tag under the resolver lock.
    Everything else is an atomic read. *)
 From Oras Require Import Base.Prelude Model.Stores Model.StoresConc.
 
@@ -15,7 +17,14 @@ Definition file_push_store (fixed ig ov : bool) (s : file_store) (d : desc) (c :
   : file_store * option fout :=
   if d_name d =? 0 then
     if ig then
-      if is_manifest (d_mt d) && negb (verify d c) then (s, Some (FO (OErr EMismatch))) else (s, Some (FO OOk))
+      if is_manifest (d_mt d) then
+        if verify d c
+        then match file_restore fixed ov (b_tl c) s with
+             | (s2, Some e) => (s2, Some e)
+             | (s2, None) => (s2, Some (FO OOk))
+             end
+        else (s, Some (FO (OErr EMismatch)))
+      else (s, Some (FO OOk))
     else match get gkey_eqb (gk d) (f_cas s) with
          | Some _ => (s, Some (FO (OErr EAlreadyExists)))
          | None =>
@@ -25,15 +34,7 @@ Definition file_push_store (fixed ig ov : bool) (s : file_store) (d : desc) (c :
                           (put gkey_eqb (gk d) c (f_cas s)) (f_res s) (f_graph s), None)
              else (s, Some (FO (OErr EMismatch)))
          end
-  else if mem N.eqb (d_name d) (f_names s) then (s, Some (FE FDuplicateName))
-  else if ov && is_some (get N.eqb (path_of (d_name d)) (f_disk s)) then (s, Some (FE FOverwrite))
-  else if verify d c
-  then (mkFile (d_name d :: f_names s) (put N.eqb (d_dig d) (path_of (d_name d)) (f_d2p s))
-               (put N.eqb (path_of (d_name d)) c (f_disk s)) (f_cas s) (f_res s) (f_graph s), None)
-  else (mkFile (f_names s) (f_d2p s)
-               (if fixed then del N.eqb (path_of (d_name d)) (f_disk s)
-                else put N.eqb (path_of (d_name d)) c (f_disk s))
-               (f_cas s) (f_res s) (f_graph s), Some (FO (OErr EMismatch))).
+  else file_named_push fixed ov s (gk d) (d_name d) c.
 
 Inductive fpc :=
 | FIdle
@@ -66,7 +67,7 @@ Definition fthread_step (fx ig ov : bool) (s : file_store) (t : fthread)
           | _ => Some (s, mkFT FIdle rest, [o])
           end
       end
-  | FIndex d => Some (fst (file_index_after d s), mkFT FIdle (ft_ops t), [])
+  | FIndex d => Some (fst (file_index_after fx ov d s), mkFT FIdle (ft_ops t), [])
   | FTag2 d r =>
       Some (mkFile (f_names s) (f_d2p s) (f_disk s) (f_cas s) (res_tag d r (f_res s)) (f_graph s),
             mkFT FIdle (ft_ops t), [Tag d r])
